@@ -22,7 +22,7 @@ QUICK = [("exprfull", "G_exprfull.cfg", 2, 150), ("expr3", "G_expr3.cfg", 1, 300
          ("bind", "G_bind.cfg", 2, 100), ("bind3", "G_bind3.cfg", 1, 300), ("arrowpat", "G_arrowpat.cfg", 1, 200), ("asgpat", "G_asgpat.cfg", 2, 100),
          ("asgpat2", "G_asgpat2.cfg", 2, 100), ("class", "G_class.cfg", 2, 100), ("classbody", "G_classbody.cfg", 2, 100),
          ("classasi", "G_classasi.cfg", 2, 20), ("forin", "G_forin.cfg", 1, 300), ("forinpat", "G_forinpat.cfg", 2, 100)]
-THOROUGH = [("expr4", "T_expr4.cfg", 1, 1000), ("stmt3", "T_stmt3.cfg", 1, 500), ("asi4", "T_asi4.cfg", 1, 500), ("exprfull3", "T_exprfull3.cfg", 1, 1000),
+THOROUGH = [("expr4", "T_expr4.cfg", 1, 1000), ("expr3b", "T_expr3b.cfg", 1, 1000), ("stmt3", "T_stmt3.cfg", 1, 1000), ("asi4", "T_asi4.cfg", 1, 2000),
             ("bind4", "T_bind4.cfg", 1, 500)]
 CONSTANTS = {
     "G_exprfull": "every expression with <= 2 operator nodes over the full operator vocabulary (25 binary, 16 assignment, 8 unary, ++/-- prefix and postfix, "
@@ -37,6 +37,8 @@ CONSTANTS = {
     "G_forin": "the [In] parameter: `in` bare and inside every kind of bracket in the head of a for statement", "G_forinpat": "`in` inside binding patterns of for heads",
     "G_class": "class declarations: every element kind pairwise, heritage", "G_classbody": "statements in methods, private names, static blocks", "G_classasi": "class field terminators",
     "G_neg": "assignment to a binary expression, lexical redeclaration pairs, parentheses whose removal gives -a**b or ?? mixed with ||/&&",
+    "T_expr4": "<= 4 operator nodes over nine operators", "T_expr3b": "<= 3 operator nodes over the other representatives of each level",
+    "T_stmt3": "every statement kind, <= 3 nested", "T_asi4": "ASI spellings, <= 3 statements nested", "T_bind4": "patterns with <= 4 pattern nodes",
     "G_sim": "-simulate: MaxE=7 MaxS=6 MaxX=6 MaxP=2 MaxL=3 MaxTop=3 over the whole vocabulary",
 }
 
@@ -252,7 +254,7 @@ def run(ck):
             results[name] = (cases, out)
     sim = ck.path("cases-sim.ndjson")
     ck.tlc("js", "JsGrammar", "G_sim.cfg", label="generator: random large programs (-simulate)", env={"VERIF_CASES": sim}, timeout=3000,
-           simulate=60000 if thorough else 2500, depth=100, seed=ck.seed, workers=min(8, ck.cores), count=False, heap="6g")
+           simulate=40000 if thorough else 2500, depth=100, seed=ck.seed, workers=min(8, ck.cores), count=False, heap="6g")
     plan.append(("sim", "G_sim.cfg", 1, 100))
     results["sim"] = (sim, "")
     vocab = set()
